@@ -195,3 +195,31 @@ Section Footprints.
       + rewrite (Wr2 d2 ti m2 (shr r1) g k E2). transitivity (s k); [apply Wr1; exact E1|symmetry; apply Wr2; exact E2].
   Qed.
 End Footprints.
+
+(* ---- naming: paths enumerated later never rename an object reached earlier; paths enumerated EARLIER do, exactly when they reach it *)
+Lemma find_app_l {A} (f : A -> bool) l l' x : find f l = Some x -> find f (l ++ l') = Some x.
+Proof. induction l as [|a l IH]; cbn; [discriminate|]. destruct (f a); [tauto|exact IH]. Qed.
+Lemma find_app_none {A} (f : A -> bool) l l' : find f l = None -> find f (l ++ l') = find f l'.
+Proof. induction l as [|a l IH]; cbn; [reflexivity|]. destruct (f a); [discriminate|exact IH]. Qed.
+
+Lemma name_of_later_paths i l l' : In i (map snd l) -> name_of i (l ++ l') = name_of i l.
+Proof.
+  intros Hin. unfold name_of. destruct (find (fun x => Nat.eqb (snd x) i) l) as [x|] eqn:E.
+  - now rewrite (find_app_l _ _ _ _ E).
+  - exfalso. apply in_map_iff in Hin. destruct Hin as [[p j] [Hj Hx]]. cbn in Hj. subst j.
+    pose proof (find_none _ _ E _ Hx) as F. cbn in F. rewrite Nat.eqb_refl in F. discriminate.
+Qed.
+
+Lemma name_of_earlier_unrelated_paths i l l' : ~ In i (map snd l') -> name_of i (l' ++ l) = name_of i l.
+Proof.
+  intros Hn. unfold name_of. rewrite find_app_none; [reflexivity|].
+  destruct (find (fun x => Nat.eqb (snd x) i) l') as [[p j]|] eqn:E; [|reflexivity].
+  exfalso. apply find_some in E. destruct E as [Hx Hj]. cbn in Hj. apply Nat.eqb_eq in Hj. subst j.
+  apply Hn. apply in_map_iff. exists (p, i). split; [reflexivity|exact Hx].
+Qed.
+
+Lemma name_of_earlier_reference_renames : exists l l' i, In i (map snd l) /\ name_of i (l' ++ l) <> name_of i l.
+Proof.
+  exists [("interventions_vx_coverage_dist"%string, 7%nat)], [("interventions_holder_watched_coverage_dist"%string, 7%nat)], 7%nat.
+  split; [left; reflexivity|]. cbv. discriminate.
+Qed.
